@@ -59,6 +59,9 @@ type Op struct {
 	D  int64  `json:"d,omitempty"`
 	M  int    `json:"m,omitempty"`
 	I  int    `json:"i,omitempty"`
+	// A (ex only): the Data named N, variant A (1|2), arrives while the Interest is being handed
+	// to the face -- a loopback / in-process peer that answers before Express has returned
+	A int `json:"a,omitempty"`
 }
 
 type Case struct {
@@ -300,9 +303,27 @@ type hcall struct {
 	args ndn.InterestHandlerArgs
 }
 
+// loopFace is the dummy face with one addition: a packet set in answer is fed to the engine from
+// inside Send, right after the packet being sent was put on the face -- an interleaving of a
+// packet arrival with Express that a passive face cannot produce.
+type loopFace struct {
+	*dummy.DummyFace
+	answer []byte
+}
+
+func (f *loopFace) Send(pkt enc.Wire) error {
+	err := f.DummyFace.Send(pkt)
+	if a := f.answer; a != nil && err == nil {
+		f.answer = nil
+		_ = f.DummyFace.FeedPacket(a)
+	}
+	return err
+}
+
 type harness struct {
 	mu    sync.Mutex
 	clk   clock
+	loop  *loopFace
 	face  *dummy.DummyFace
 	eng   *basic.Engine
 	ints  []*exInt
@@ -511,7 +532,8 @@ func run(c Case, clk clock) (res evid.Result) {
 		}
 	}()
 	passAll := func(enc.Name, enc.Wire, ndn.Signature) bool { return true }
-	h.eng = basic.NewEngine(h.face, clk.timer(), sec.NewSha256IntSigner(clk.timer()), passAll)
+	h.loop = &loopFace{DummyFace: h.face}
+	h.eng = basic.NewEngine(h.loop, clk.timer(), sec.NewSha256IntSigner(clk.timer()), passAll)
 	if err := h.eng.Start(); err != nil {
 		return evid.Result{Err: fmt.Errorf("harness: engine does not start: %v", err)}
 	}
@@ -612,6 +634,66 @@ func (h *harness) result(err error) evid.Result {
 	return r
 }
 
+// dataWants: which pending Interests the Data named name, variant v, must (req) and may (alw)
+// resolve if it arrives now.
+func (h *harness) dataWants(name string, v int) (req, alw map[int]bool, shorterResolvedBefore bool) {
+	dg := dataDigest(name, v)
+	now := h.clk.now()
+	req, alw = map[int]bool{}, map[int]bool{}
+	for _, e := range h.ints {
+		if e.resolved && e.name != name && isPrefix(e.name, name) {
+			shorterResolvedBefore = true
+		}
+	}
+	for _, e := range h.pending() {
+		nameOK := e.name == name || (e.cbp && isPrefix(e.name, name))
+		if !nameOK {
+			continue
+		}
+		if e.digest != nil && !bytes.Equal(e.digest, dg) {
+			h.cls["data-with-other-digest-than-requested"] = true
+			continue
+		}
+		alw[e.id] = true
+		if now.Before(e.at.Add(e.life)) {
+			req[e.id] = true
+		} else {
+			h.cnt["data-for-interest-past-lifetime-not-yet-timed-out (either outcome accepted)"]++
+		}
+	}
+	return
+}
+
+// judgeData: the callbacks invoked since the last judgement against what the Data that just
+// arrived must and may resolve.
+func (h *harness) judgeData(step int, name string, v int, req, alw map[int]bool, shorterResolvedBefore bool) error {
+	if len(req) >= 2 {
+		h.cls["data-satisfies->=2-pending"] = true
+	}
+	if len(alw) == 0 {
+		h.cls["data-satisfies-nothing"] = true
+	}
+	if len(req) >= 1 && shorterResolvedBefore {
+		h.cls["data-for-longer-name-after-a-shorter-name-resolved"] = true
+	}
+	return h.judge(step, fmt.Sprintf("Data %s variant %d", name, v), ndn.InterestResultData, req, alw, func(e *exInt, c call) error {
+		h.stats.dataRes++
+		if c.name != mkName(name).String() {
+			return fmt.Errorf("callback got Data named %s, the Data fed is %s", c.name, name)
+		}
+		if !c.rawOK {
+			return fmt.Errorf("callback's RawData is not the wire of the Data fed")
+		}
+		if e.digest != nil {
+			h.cls["resolved-by-digest-match"] = true
+		}
+		if e.name != name {
+			h.cls["resolved-by-longer-data(CanBePrefix)"] = true
+		}
+		return nil
+	})
+}
+
 func (h *harness) step(step int, op Op, nInt *int) error {
 	clk := h.clk
 	switch op.K {
@@ -625,6 +707,12 @@ func (h *harness) step(step int, op Op, nInt *int) error {
 		h.mu.Lock()
 		h.ints = append(h.ints, e)
 		h.mu.Unlock()
+		var ansReq, ansAlw map[int]bool
+		if op.A == 1 || op.A == 2 {
+			ansReq, ansAlw, _ = h.dataWants(op.N, op.A)
+			h.loop.answer = append([]byte{}, dataWire(op.N, op.A)...)
+			h.cls["data-arrives-while-the-interest-is-being-sent"] = true
+		}
 		err := h.eng.Express(it, func(a ndn.ExpressCallbackArgs) {
 			c := call{kind: a.Result, reason: a.NackReason, at: clk.now()}
 			if a.Data != nil {
@@ -646,6 +734,9 @@ func (h *harness) step(step int, op Op, nInt *int) error {
 		if op.G != 0 {
 			h.cls["express-with-digest"] = true
 		}
+		if ansAlw != nil {
+			return h.judgeData(step, op.N, op.A, ansReq, ansAlw, false)
+		}
 		return h.noCalls(step, "express")
 
 	case "data":
@@ -654,31 +745,7 @@ func (h *harness) step(step int, op Op, nInt *int) error {
 			v = 1
 		}
 		wire := dataWire(op.N, v)
-		dg := dataDigest(op.N, v)
-		now := clk.now()
-		req, alw := map[int]bool{}, map[int]bool{}
-		shorterResolvedBefore := false
-		for _, e := range h.ints {
-			if e.resolved && e.name != op.N && isPrefix(e.name, op.N) {
-				shorterResolvedBefore = true
-			}
-		}
-		for _, e := range h.pending() {
-			nameOK := e.name == op.N || (e.cbp && isPrefix(e.name, op.N))
-			if !nameOK {
-				continue
-			}
-			if e.digest != nil && !bytes.Equal(e.digest, dg) {
-				h.cls["data-with-other-digest-than-requested"] = true
-				continue
-			}
-			alw[e.id] = true
-			if now.Before(e.at.Add(e.life)) {
-				req[e.id] = true
-			} else {
-				h.cnt["data-for-interest-past-lifetime-not-yet-timed-out (either outcome accepted)"]++
-			}
-		}
+		req, alw, shorterResolvedBefore := h.dataWants(op.N, v)
 		feed := wire
 		if op.Lp {
 			feed = lpWrap(wire, []byte{9, 9, 9, 9}, 0)
@@ -687,34 +754,7 @@ func (h *harness) step(step int, op Op, nInt *int) error {
 			return fmt.Errorf("step %d: harness: FeedPacket: %v", step, err)
 		}
 		clk.settle()
-		if len(req) >= 2 {
-			h.cls["data-satisfies->=2-pending"] = true
-		}
-		if len(alw) == 0 {
-			h.cls["data-satisfies-nothing"] = true
-		}
-		if len(req) >= 1 && shorterResolvedBefore {
-			h.cls["data-for-longer-name-after-a-shorter-name-resolved"] = true
-		}
-		nreq := len(req)
-		err := h.judge(step, fmt.Sprintf("Data %s variant %d", op.N, v), ndn.InterestResultData, req, alw, func(e *exInt, c call) error {
-			h.stats.dataRes++
-			if c.name != mkName(op.N).String() {
-				return fmt.Errorf("callback got Data named %s, the Data fed is %s", c.name, op.N)
-			}
-			if !c.rawOK {
-				return fmt.Errorf("callback's RawData is not the wire of the Data fed")
-			}
-			if e.digest != nil {
-				h.cls["resolved-by-digest-match"] = true
-			}
-			if e.name != op.N {
-				h.cls["resolved-by-longer-data(CanBePrefix)"] = true
-			}
-			return nil
-		})
-		_ = nreq
-		if err != nil {
+		if err := h.judgeData(step, op.N, v, req, alw, shorterResolvedBefore); err != nil {
 			return err
 		}
 		if n := len(h.drainFace()); n != 0 {
@@ -992,6 +1032,9 @@ func genCase(t *rapid.T) Case {
 				// the requested digest, so it must not resolve this Interest
 				op.G = rapid.IntRange(1, 3).Draw(t, "digest")
 				op.P = true
+			}
+			if rapid.IntRange(0, 11).Draw(t, "answeredAtOnce") == 0 {
+				op.A = rapid.SampledFrom([]int{1, 1, 2}).Draw(t, "answerVariant")
 			}
 			exps = append(exps, gExp{op.N, now, int64(life(op.L) / time.Microsecond)})
 		case "data":
